@@ -362,10 +362,17 @@ func (h *HarnessRun) worker(w int, st *SolverStats) {
 			// reservoir sample of completed paths (deterministic in VERIF_SEED)
 			h.doneSeen++
 			h.rng = h.rng*6364136223846793005 + 1442695040888963407
+			mk := func() Sample {
+				w := ex.witness(ex.model)
+				if ex.lastSchedule != "" {
+					w = append(w, WitnessVal{Kind: "schedule", Val: ex.lastSchedule})
+				}
+				return Sample{Witness: w, Obs: ex.obsStrings(ex.model), End: end}
+			}
 			if len(h.res.Samples) < h.cfg.Samples {
-				h.res.Samples = append(h.res.Samples, Sample{Witness: ex.witness(ex.model), Obs: ex.obsStrings(ex.model), End: end})
+				h.res.Samples = append(h.res.Samples, mk())
 			} else if j := int((h.rng >> 33) % uint64(h.doneSeen)); j < h.cfg.Samples {
-				h.res.Samples[j] = Sample{Witness: ex.witness(ex.model), Obs: ex.obsStrings(ex.model), End: end}
+				h.res.Samples[j] = mk()
 			}
 		}
 		// push alternatives (LIFO: deepest first)
@@ -437,7 +444,9 @@ func (ex *Exec) runPath(it workItem) (end string, msg string) {
 	ex.pathEpoch++
 	ex.epoch = ex.pathEpoch
 	defer func() {
+		ex.lastSchedule = ""
 		if ex.threads != nil {
+			ex.lastSchedule = strings.Join(ex.threads.schedule, " ")
 			ex.threads.killAll()
 			ex.threads = nil
 		}
@@ -502,7 +511,7 @@ func (ex *Exec) witness(m Model) []WitnessVal {
 	out := make([]WitnessVal, 0, len(ex.ndVars))
 	memo := map[int]uint64{}
 	for _, nv := range ex.ndVars {
-		if nv.Kind == "len" || nv.Kind == "choose" {
+		if nv.Kind == "len" || nv.Kind == "choose" || nv.Kind == "sched" {
 			out = append(out, WitnessVal{nv.Kind, strconv.Itoa(nv.n)})
 			continue
 		}
@@ -626,7 +635,11 @@ func (ex *Exec) reportViolationK(id, msg string, m Model, known string) {
 	if ex.threads != nil && len(ex.threads.schedule) > 0 {
 		msg += " schedule: " + strings.Join(ex.threads.schedule, " ")
 	}
-	v := Violation{Harness: h.decl.Name, Assert: id, Msg: msg, Witness: ex.witness(m), Obs: ex.obsStrings(m), Known: known}
+	wit := ex.witness(m)
+	if ex.threads != nil && len(ex.threads.schedule) > 0 {
+		wit = append(wit, WitnessVal{Kind: "schedule", Val: strings.Join(ex.threads.schedule, " ")})
+	}
+	v := Violation{Harness: h.decl.Name, Assert: id, Msg: msg, Witness: wit, Obs: ex.obsStrings(m), Known: known}
 	h.mu.Lock()
 	defer h.mu.Unlock()
 	key := id + "|" + known
@@ -867,6 +880,14 @@ func init() {
 			ex.threadsInit().run(ex)
 			return nil, true
 		},
+		"vgate": func(ex *Exec, fn *ssa.Function, a []Value) (Value, bool) {
+			if ex.threads != nil {
+				op, _ := concreteStr(a[0])
+				ex.threads.yieldPoint(ex, op, false)
+			}
+			return nil, true
+		},
+		"vregisterThread": func(ex *Exec, fn *ssa.Function, a []Value) (Value, bool) { return nil, true },
 		"vyield": func(ex *Exec, fn *ssa.Function, a []Value) (Value, bool) {
 			if ex.threads != nil {
 				ex.threads.yieldPoint(ex, "yield", false)
